@@ -1,5 +1,5 @@
 # C10 — equity export carries every selected balance forward exactly
-import json, os
+import copy, json, os
 from common import *
 import journal as J
 
@@ -286,6 +286,22 @@ def evaluate(run, cases):
         else:
             c["export"] = None
             c["export_error"] = eq
+    # the export is a function of the transaction set: reports produced earlier in the same run (here: every
+    # text report, with price conversion where configured) must not change it
+    third, idx3 = [], []
+    for i, c in enumerate(cases):
+        if c["usable"] and c.get("export") is not None:
+            rq = copy.deepcopy(request1(c))
+            rq["ops"] = [{"op": "balance", "prices": True}, {"op": "text_balance"}, {"op": "text_register"}, {"op": "text_balgrp"}, {"op": "equity"}]
+            third.append(rq); idx3.append(i)
+    for i, r in zip(idx3, harness_run(third)):
+        c = cases[i]
+        run.cov["evaluations"] += 1
+        if r and r.get("stage") == "done" and "ok" in r["results"][-1] and r["results"][-1]["ok"] != c["export"]:
+            c["export_after_reports"] = r["results"][-1]["ok"]
+            run.violation("equity export depends on the reports produced before it in the same run (same transaction set, same settings)",
+                          dict(replay_obj(c), export_after_reports=r["results"][-1]["ok"],
+                               ops_before_export=["balance (prices as configured)", "text_balance", "text_register", "text_balgrp"]))
     res2 = harness_run(second)
     for i, r in zip(idx2, res2):
         c = cases[i]
